@@ -44,7 +44,8 @@ __CPROVER_requires(surface != INVALID_ID && k < 64)
 __CPROVER_assigns()
 __CPROVER_ensures(__CPROVER_return_value == g_vals[k] && __CPROVER_return_value >= 0)
 ;
-static real_type celer_min(real_type a, real_type b) { return fmin(a, b); }   /* celeritas::min<floating> == std::fmin (extracted and checked in c14_msc_*) */
+static real_type celer_min(real_type a, real_type b) { return fmin(a, b); }
+static real_type celer_max(real_type a, real_type b) { return fmax(a, b); }   /* celeritas::min<floating> == std::fmin (extracted and checked in c14_msc_*) */
 """
 SAF_RULES = [
     Rule(r"CELER_EXPECT\(volid\);", "CELER_EXPECT(volid != INVALID_ID);", 1, note="OpaqueId::operator bool"),
@@ -55,7 +56,8 @@ SAF_RULES = [
     Rule(r"CalcSafetyDistance calc_safety\{pos\};", "", 1, note="functor construction dropped"),
     Rule(r"for \(LocalSurfaceId surface : vol\.faces\(\)\)\s*\{", "for (size_type fi_ = 0; fi_ < vol.faces_.size; ++fi_)\n    {\n        size_type surface = vol.faces_.ptr[fi_];", 1, note="range-for over a Span -> index loop"),
     Rule(r"visit_surface\(calc_safety, surface\)", "VISIT_calc_safety(pos, surface, fi_)", 1, note="surface visitor -> stub"),
-    Rule(r"celeritas::min\(|(?<![\w_])min\(", "celer_min(", "+", note="celeritas::min"),
+    Rule(r"celeritas::min\(|(?<![\w_])min\(", "celer_min(", "*", note="celeritas::min"),
+    Rule(r"celeritas::max\(|(?<![\w_])max\(", "celer_max(", "*", note="celeritas::max"),
     LoopContracts([
         "    __CPROVER_assigns(fi_, result)\n"
         "    __CPROVER_loop_invariant(fi_ <= vol.faces_.size && result >= 0)\n"
